@@ -48,6 +48,12 @@ def make_overlay(ctx, tree, cfg, dst):
                             out.append(l)
                     open(p, 'w', encoding='utf-8').write('\n'.join(out))
     if cfg.version == '4.1':
+        # AppArmor 4.1 ships the abi/4.0 feature file, and the four files taken from the source tree below declare it
+        # (whatever ABI the build itself targets); whether a BUILT file of an ABI 3 build still declares abi/4.0 is
+        # checked on the build output itself, not through this file
+        abi4 = os.path.join(dst, 'abi', '4.0')
+        if not os.path.exists(abi4):
+            shutil.copy(os.path.join(dst, 'abi', '3.0'), abi4)
         # files the configure task drops because AppArmor 4.1 ships them; the installed reference policy is 3.0.8
         for rel in ('abstractions/devices-usb-read', 'abstractions/devices-usb', 'abstractions/nameservice-strict', 'tunables/multiarch.d/base'):
             src = os.path.join(lib.REPO, 'apparmor.d', rel)
